@@ -19,7 +19,7 @@ package sign
 // Output gate (C01): the session's result is produced only for a signature its verifier accepts for exactly this
 // session's group key and message.
 //@ func (*round3).Finalize
-//@   assert_at[C01] ResultRound "return r.ResultRound(sig)": typeis(arg1, taproot.Signature) ==> (r.taproot && bip340_valid(xbytes(ptval(r.Y)), bval(arg1.(taproot.Signature)), bval(r.M)))
+//@   assert_at[C01] ResultRound "return r.ResultRound(sig)": typeis(arg1, taproot.Signature) ==> (r.taproot && bip340_ok(taprootPub, arg1.(taproot.Signature), r.M) && bval(taprootPub) == xbytes(ptval(r.Y)))
 //@   assert_at[C01] ResultRound "return r.ResultRound(sig)": typeis(arg1, Signature) ==> (!r.taproot && schnorr_valid(arg1.(Signature).R, arg1.(Signature).z, r.Y, r.M))
 //@   assert_at[C01] ResultRound "return r.ResultRound(sig)": typeis(arg1, taproot.Signature) || typeis(arg1, Signature)
 
